@@ -22,6 +22,15 @@ use zk_circuits_common::utils::try_4_felts_to_bytes;
 
 pub type KeyRepr = ([u64; 4], u64, u64);
 
+/// `u64::MAX` nanoseconds stands for `Duration::MAX` ("never"), every other value for itself.
+pub fn ns_or_max(ns: u64) -> Duration {
+    if ns == u64::MAX {
+        Duration::MAX
+    } else {
+        Duration::from_nanos(ns)
+    }
+}
+
 pub fn digest4(v: &[u64; 4]) -> BytesDigest {
     let f: Vec<F> = v.iter().map(|x| F::from_canonical_u64(*x)).collect();
     try_4_felts_to_bytes(&f).unwrap()
@@ -54,7 +63,7 @@ impl PoolParams {
             max_proofs: self.max_proofs,
             max_buckets: self.max_buckets,
             max_verifies_per_window: self.max_verifies,
-            verify_window: Duration::from_nanos(self.window_ns),
+            verify_window: ns_or_max(self.window_ns),
         }
     }
 }
@@ -124,6 +133,12 @@ impl Violation {
     pub fn classes(&self) -> Vec<String> {
         self.findings.iter().map(|(c, _)| c.clone()).collect()
     }
+}
+
+/// Run one pool call; a panic inside the component under test is a finding of the property the
+/// operation belongs to (the pool API returns errors, it does not unwind), never a harness crash.
+fn guarded<T>(f: impl FnOnce() -> T) -> Result<T, String> {
+    std::panic::catch_unwind(std::panic::AssertUnwindSafe(f)).map_err(|e| e.downcast_ref::<String>().cloned().or_else(|| e.downcast_ref::<&str>().map(|s| s.to_string())).unwrap_or_else(|| "panic".into()))
 }
 
 fn viol(class: &str, at: usize, detail: String) -> Violation {
@@ -291,7 +306,10 @@ impl<'a, B: Backend> Exec<'a, B> {
                 let targets = self.model.settled_targets(&set);
                 let buckets_before = self.model.buckets.len();
                 let hs: HashSet<BytesDigest> = set.iter().copied().collect();
-                let got = self.be.evict_settled(&hs);
+                let got = match guarded(|| self.be.evict_settled(&hs)) {
+                    Ok(v) => v,
+                    Err(m) => return Err(viol("custody:evict-settled-panicked", at, format!("evict_settled panicked: {m}"))),
+                };
                 self.model.remove(&targets);
                 if targets.iter().any(|(k, _)| self.model.buckets.get(k).map(|b| b.entries.len() >= 2).unwrap_or(false)) {
                     self.probes.inc("settlement_partial_with_two_or_more_survivors");
@@ -316,7 +334,14 @@ impl<'a, B: Backend> Exec<'a, B> {
                     self.probes.inc("expiry_at_exact_boundary");
                 }
                 let buckets_before = self.model.buckets.len();
-                let got = self.be.evict_older_than(Duration::from_nanos(*max_age_ns));
+                if *max_age_ns == u64::MAX {
+                    self.probes.inc("expiry_with_duration_max");
+                }
+                let age = ns_or_max(*max_age_ns);
+                let got = match guarded(|| self.be.evict_older_than(age)) {
+                    Ok(v) => v,
+                    Err(m) => return Err(viol("custody:evict-older-panicked", at, format!("evict_older_than({age:?}) panicked: {m}"))),
+                };
                 self.model.remove(&targets);
                 if targets.iter().any(|(k, _)| self.model.buckets.get(k).map(|b| b.entries.len() >= 2).unwrap_or(false)) {
                     self.probes.inc("expiry_partial_with_two_or_more_survivors");
@@ -337,7 +362,10 @@ impl<'a, B: Backend> Exec<'a, B> {
                 let expect: Option<Vec<usize>> = self.model.buckets.get(&k).map(|b| {
                     b.entries.iter().take(self.model.batch).map(|e| e.msg).collect()
                 });
-                let got = self.be.snapshot(&k);
+                let got = match guarded(|| self.be.snapshot(&k)) {
+                    Ok(v) => v,
+                    Err(m) => return Err(viol("custody:snapshot-panicked", at, format!("snapshot_batch panicked: {m}"))),
+                };
                 match (&expect, &got) {
                     (None, None) => {
                         self.probes.inc("snapshot_absent_key");
@@ -371,7 +399,10 @@ impl<'a, B: Backend> Exec<'a, B> {
             Step::RemoveBucket { key, .. } => {
                 let k = key_of(key);
                 let expect: Vec<usize> = self.model.buckets.get(&k).map(|b| b.entries.iter().map(|e| e.msg).collect()).unwrap_or_default();
-                let got = self.be.remove_bucket(&k);
+                let got = match guarded(|| self.be.remove_bucket(&k)) {
+                    Ok(v) => v,
+                    Err(m) => return Err(viol("custody:remove-bucket-panicked", at, format!("remove_bucket panicked: {m}"))),
+                };
                 self.model.buckets.remove(&k);
                 if expect.len() != got.len() || expect.iter().zip(&got).any(|(i, p)| &self.messages[*i] != p) {
                     findings.push(("custody:remove-bucket-return".into(), format!("remove_bucket returned {} proofs, bucket held {}", got.len(), expect.len())));
@@ -449,7 +480,14 @@ impl<'a, B: Backend> Exec<'a, B> {
         let v0 = self.verify_count.get();
         self.stall.set(stall_ns);
         let cpu0 = qpz_core::thread_cpu_ns();
-        let res = self.be.push(msg.clone());
+        let res = match guarded(|| self.be.push(msg.clone())) {
+            Ok(r) => r,
+            Err(m) => {
+                self.stall.set(0);
+                findings.push(("admit:push-panicked".into(), format!("push panicked instead of returning (the rules give {:?}): {m}", decision)));
+                return Outcome::Dropped;
+            }
+        };
         let cpu = qpz_core::thread_cpu_ns() - cpu0;
         self.stall.set(0);
         let t_ret = clock::now();
@@ -478,8 +516,16 @@ impl<'a, B: Backend> Exec<'a, B> {
             if d_cnt as u64 != dv {
                 findings.push(("budget:counter-state".into(), format!("after a window restart the counter is {d_cnt}, the push performed {dv} verifications")));
             }
-        } else if d_cnt as u64 != prev_cnt as u64 + dv {
-            findings.push(("budget:counter-state".into(), format!("counter went from {prev_cnt} to {d_cnt} at a push that performed {dv} verifications")));
+        } else {
+            if d_cnt as u64 != prev_cnt as u64 + dv {
+                findings.push(("budget:counter-state".into(), format!("counter went from {prev_cnt} to {d_cnt} at a push that performed {dv} verifications")));
+            }
+            // the documented fixed window restarts AT the first push that gets as far as the budget
+            // test once a full window has elapsed; a counter carried past that instant decides later
+            // pushes against a budget that no longer exists
+            if elapsed && decision.reaches_budget() {
+                findings.push(("budget:no-restart-after-full-window".into(), format!("a push at {t} got as far as the budget test {} ns after the window start {prev_ws} (window {} ns), yet the window was not restarted (counter {prev_cnt} -> {d_cnt})", t - prev_ws, self.model.limits.window_ns)));
+            }
         }
         // the model adopts the implementation's budget state (any illegal move was recorded above)
         self.model.window_start = d_ws;
@@ -755,7 +801,7 @@ impl<'a, B: Backend> Exec<'a, B> {
             match cur_ws {
                 Some(ws) if ws == p.window_start_after => {}
                 Some(ws) => {
-                    if p.t_call < ws + window_ns {
+                    if p.t_call < ws.saturating_add(window_ns) {
                         return Err(viol("budget:early-restart", i, format!("window restarted at a push at {} although the window began at {ws} and lasts {window_ns}", p.t_call)));
                     }
                     cur_ws = Some(p.window_start_after);
